@@ -63,6 +63,9 @@ def run(ctx):
             ok = a0 == ("ref", fld(arg(1), ci)) and a1 == arg(2) and typ_ok and only_via_push
             why = "pushes arg into custom_tags=%s guard is TagType::from(typ) == Custom=%s every return passes the push=%s" % (a0 == ("ref", fld(arg(1), ci)) and a1 == arg(2), typ_ok, only_via_push)
         ctx.check(ok, "SETTER", "add_custom_tag:guard", "add_custom_tag(t) appends t iff TagType::from(t.header().typ) is Custom(_); otherwise it panics (no silent drop)", ac[0].get("span", ""), how=why, why=why)
+    if ctx.tier == "thorough":
+        from .. import witness
+        witness.check(ctx, [("SlotType", "a builder slot only accepts its own tag type")], rule="SETTER")
     for pid in ("C16", "C07", "C02", "C03"):
         ctx.import_prop(pid)
     ctx.note("hand step: each pushed slice is as_bytes() of a supplied tag (its bytes up to round8(size)); by C16 they are concatenated after an 8-byte header declaring the exact total, "
